@@ -32,7 +32,7 @@ def gen(rel):
     tree = ast.parse(m.source)
     known = set(repo.by_name)
     base = vgraph.module_fingerprints(tree, m.name, m.is_pkg, known, E.INL)
-    rnd = random.Random(7)
+    rnd = random.Random(int(os.environ.get("MS_SEED", "7")))
     out = []
 
     def all_funcs(t):
